@@ -25,9 +25,16 @@ func Unset() { cur.Store(0) }
 // Reads returns the number of times the library read the clock.
 func Reads() int64 { return reads.Load() }
 
+// NoCount switches the read counter off (set before any goroutine is started and never
+// afterwards): in the free-running race pass an atomic counter shared by all requests would
+// order them for the race detector and hide races in the library.
+var NoCount bool
+
 // Now returns the virtual time (UTC, no monotonic reading).
 func Now() orig.Time {
-	reads.Add(1)
+	if !NoCount {
+		reads.Add(1)
+	}
 	n := cur.Load()
 	if n == 0 {
 		return orig.Now()
